@@ -40,9 +40,10 @@ pub fn generate(profile: &str, tier: Tier, seed: u64) -> Scenario {
     match profile {
         "C04" => Scenario::F(f::generate(&mut rng, tier)),
         "C04-encfail" => Scenario::F(f::generate_encfail(&mut rng, tier)),
-        "C05" | "C06" | "C06-fault" | "C17-fault" | "C16" | "C16-huge" | "C17" | "C08" | "C08-obst" => Scenario::R(r::generate(&mut rng, tier, profile)),
+        "C05" | "C06" | "C06-fault" | "C17-fault" | "C16-fault" | "C05-fault" | "C16" | "C16-huge" | "C17" | "C08" | "C08-obst" => Scenario::R(r::generate(&mut rng, tier, profile)),
         "C05-encfail" => Scenario::R(r::generate_encfail(&mut rng, tier, "C05")),
         "C06-encfail" => Scenario::R(r::generate_encfail(&mut rng, tier, "C06")),
+        "C07-obst" => Scenario::R0(r0::generate_obst(&mut rng, tier)),
         "C07" | "C07-fault" => Scenario::R0(r0::generate(&mut rng, tier)),
         "C02" => Scenario::G(g::generate(&mut rng, tier)),
         "C10" => Scenario::W(w::generate(&mut rng, tier, false)),
@@ -94,8 +95,13 @@ pub fn size(scn: &Scenario) -> usize {
 
 /// Fault-enumeration variants of a scenario, derived from its fault-free execution.
 pub fn variants(profile: &str, scn: &Scenario, base: &Outcome) -> Vec<Scenario> {
+    if cfg!(feature = "background_rotation") {
+        // with background rotation a failing step is only printed by the rotation
+        // thread: the append cannot report it, so no faults are injected in that build
+        return vec![];
+    }
     match (profile, scn) {
-        ("C08", Scenario::R(s)) | ("C06-fault", Scenario::R(s)) | ("C17-fault", Scenario::R(s)) => r::fault_variants(s, &base.summary.site_hits).into_iter().map(Scenario::R).collect(),
+        ("C08", Scenario::R(s)) | ("C06-fault", Scenario::R(s)) | ("C17-fault", Scenario::R(s)) | ("C16-fault", Scenario::R(s)) | ("C05-fault", Scenario::R(s)) => r::fault_variants(s, &base.summary.site_hits).into_iter().map(Scenario::R).collect(),
         ("C07-fault", Scenario::R0(s)) => r0::fault_variants(s, &base.summary.site_hits).into_iter().map(Scenario::R0).collect(),
         _ => vec![],
     }
